@@ -616,6 +616,20 @@ pub enum Outcome {
 
 /// Run one receiver-family case.
 pub fn run_case<T: CellT>(case: &Value, log: &mut Vec<Value>) -> Outcome {
+    if T::MAX_ORIGIN != u32::MAX {
+        // a narrow element type cannot hold every value the case uses: such cases do not apply to it
+        fn fits(v: &Value, max: u64) -> bool {
+            match v {
+                Value::Number(n) => n.as_u64().map(|x| x <= max).unwrap_or(true),
+                Value::Array(l) => l.iter().all(|e| fits(e, max)),
+                Value::Object(m) => m.values().all(|e| fits(e, max)),
+                _ => true,
+            }
+        }
+        if !fits(case, T::MAX_ORIGIN as u64) {
+            return Outcome::Skipped;
+        }
+    }
     ledger::reset();
     canary::reset();
     fault::disarm();
@@ -766,7 +780,7 @@ pub fn run_case<T: CellT>(case: &Value, log: &mut Vec<Value>) -> Outcome {
         RootObj::Plain(t) => (origins_of(t.0.data()), true, t.0.size() == (nc, nr) && t.0.data().len() == nc * nr),
         RootObj::Slice(v) => {
             let o = origins_of(v);
-            let ok = v.len() == nc * nr + EXTRA && (0..EXTRA).all(|i| !T::HAS_VALUE || o[nc * nr + i] == 888_000 + i as u32);
+            let ok = v.len() == nc * nr + EXTRA && (0..EXTRA).all(|i| !T::HAS_VALUE || o[nc * nr + i] == T::make(888_000 + i as u32).origin());
             (o[..nc * nr].to_vec(), ok, true)
         }
     };
